@@ -2761,6 +2761,42 @@ struct TableRun {
 		verdictLine(v, ex, before, fmt("mbat %d %zu %d", h, i, d), "ok", "row bounds of FindByMultiHash");
 	}
 
+	// ---- entry points of Model/VerTableX.lean
+	// TryUpdate / Update(row number, detached row made by table `src`) on table o
+	void mUpdRowOf(int o, int src, size_t i, int a, int b, int d) {
+		if (src == o) { mUpdRow(o, i, a, b, d); return; }
+		Snap before = snap(); int id = fresh[src]; bool viaTry = rng.below(2) != 0;
+		std::string opline = fmt("updrowof %c %c %zu %d %d %d", on(o), on(src), i, a, b, d);
+		auto call = [&] { if (viaTry) { TryResult r = O(o).TryUpdate(i, makeRow(src, a, b, id)); (void)r; } else (void)O(o).Update(i, makeRow(src, a, b, id)); };
+		if (!safeToRun(opline, call)) return;
+		std::string ex = guard(call);
+		verdictLine({ 1, "row of another table" }, ex, before, opline, "ok", "detached row");
+	}
+	Verdict boundsVerdict(const BSlot& sl) {
+		return mods.stale(ccell(sl.tbl), sl.born) ? Verdict{ 1, "stale hash bounds" } : mods.touched(ccell(sl.tbl), sl.born) ? Verdict{ 0, "version incremented without a change" } : Verdict{ -1, "" };
+	}
+	// it = bounds.GetBegin(); it += i
+	void uMbAdv(int h, size_t i) {
+		BSlot& sl = bs[h]; Snap before = snap(); size_t k = sl.ids.size();
+		Verdict v = i == 0 ? Verdict{ -1, "" } : (k == 0 || i > k) ? Verdict{ 1, "iterator moved out of its range" } : boundsVerdict(sl);
+		std::string opline = fmt("mbadv %d %zu", h, i);
+		auto plain = [&] { auto it = sl.mb->GetBegin(); it += (ptrdiff_t)i; if (i == k && !(it == sl.mb->GetEnd())) throw std::logic_error("not the end"); };
+		if (v.must > 0 && v.why == "iterator moved out of its range" && !safeToRun(opline, plain)) return;
+		std::string ex = guard(plain);
+		verdictLine(v, ex, before, opline, "ok", "iterator of the row bounds of FindByMultiHash");
+	}
+	// it = bounds.GetBegin(); it += i; *it
+	void uMbIt(int h, size_t i, int d) {
+		BSlot& sl = bs[h]; Snap before = snap(); bool valid = i < sl.ids.size();
+		size_t realIdx = i;
+		if (valid) realIdx = (size_t)(std::find(sl.real.begin(), sl.real.end(), sl.ids[i]) - sl.real.begin());
+		Verdict v = !valid ? Verdict{ 1, "end / empty iterator where an element is required" } : boundsVerdict(sl);
+		std::string opline = fmt("mbit %d %zu %d", h, i, d);
+		if (!valid && !safeToRun(opline, [&] { auto it = sl.mb->GetBegin(); it += (ptrdiff_t)realIdx; Ref r = *it; (void)r; })) return;
+		std::string ex = guard([&] { auto it = sl.mb->GetBegin(); it += (ptrdiff_t)realIdx; Ref r = *it; storeRef(d, r, sl.tbl, sl.born, valid ? sl.ids[i] : -1, "reference from the iterator of hash bounds"); });
+		verdictLine(v, ex, before, opline, "ok", "iterator of the row bounds of FindByMultiHash");
+	}
+
 	// ------------------------------------------------------------------------------------------------ directed misuse
 	// Uses that are wrong whatever happened before (property level only, no operation line: nothing may change): a row of another
 	// table, an index over a mutable column or over the same column twice, GetMutable of an immutable column, a row number past the
@@ -2788,24 +2824,32 @@ struct TableRun {
 		int status = 0; waitpid(pid, &status, 0);
 		return WIFEXITED(status) ? WEXITSTATUS(status) : 3;
 	}
-	// a misuse that the implementation is known not to report (defect candidates, see the final report of the coverage round): counted,
-	// printed once as NOTE; a FAIL only when VERIF_CANDIDATES is set (the main session decides whether it becomes a known finding)
-	std::set<std::string> noted;
-	void candidate(const std::string& slug, const std::string& text, int rc) {
-		c.stats.evaluations++;
-		if (rc == 0) { c.stats.count("candidate now reported (invalid_argument): " + slug); return; }
-		const char* how = rc == 1 ? "returned normally" : rc == 3 ? "crashed" : "threw something else";
-		c.stats.count("candidate: " + slug + " - " + how);
-		if (getenv("VERIF_CANDIDATES")) c.fail("C15 known-Fxx-candidate %s (%s): %s: %s", slug.c_str(), j.cfg.c_str(), text.c_str(), how);
-		else if (noted.insert(slug).second) printf("NOTE C15 known-Fxx-candidate %s (%s): %s: %s\n", slug.c_str(), j.cfg.c_str(), text.c_str(), how);
+	// a misuse whose omission would corrupt memory (repairs F31 / F32): first in a forked child; in this process only when the child
+	// saw std::invalid_argument
+	// (per kind of misuse - the first word of `what` - the first 25 cases are protected; a kind that failed once is skipped afterwards)
+	std::map<std::string, int> protectedRuns;
+	bool safeToRun(const std::string& what, const std::function<void()>& f) {
+		int& runs = protectedRuns[what.substr(0, what.find(' '))];
+		if (runs < 0) return false;
+		if (runs >= 25) return true;
+		int rc = inChild(f);
+		c.stats.evaluations++; c.stats.count("misuse first tried in a child process");
+		if (rc == 0) { ++runs; return true; }
+		runs = -1;
+		c.fail("C15 %s: misuse not reported (%s): %s; history: %s", j.cfg.c_str(), rc == 1 ? "the call returned normally" : rc == 3 ? "the call crashed" : "another exception",
+			what.c_str(), j.scen.c_str());
+		return false;
+	}
+	void expectRejectProtected(const std::string& what, const std::string& why, const std::function<void()>& f) {
+		if (safeToRun(what, f)) expectUse(true, what, why, f);
 	}
 	void directedMisuse() {
 		const Table& ct = O(0);
 		size_t n = O(0).GetCount(), n1 = O(1).GetCount();
 		std::vector<int> idsA; for (const RowV& r : rowsOf(0)) idsA.push_back(r.id);
 		// ---- DataTable.h:487 operator[] const
-		expectUse(true, fmt("constTable[%zu]", n), "out-of-range row number", [&] { CRef r = ct[n]; (void)r; });
-		expectUse(true, "constTable[SIZE_MAX]", "out-of-range row number", [&] { CRef r = ct[SMAX]; (void)r; });
+		expectRejectProtected(fmt("constTable[count] (%zu)", n), "out-of-range row number", [&] { CRef r = ct[n]; (void)r; });
+		expectRejectProtected("constTable[SIZE_MAX]", "out-of-range row number", [&] { CRef r = ct[SMAX]; (void)r; });
 		if (n) expectUse(false, fmt("constTable[%zu]", n - 1), "", [&] { CRef r = ct[n - 1]; if ((int)r[CL::ID()] != idsA[n - 1]) throw std::logic_error("wrong row"); });
 		// ---- DataTable.h:559 / 1544 / 1543: a detached row of the other table, an empty index
 		expectUse(true, "A.TryAdd(row of B)", "row of another table", [&] { TryResult r = O(0).TryAdd(makeRow(1, 500, 5, 999)); (void)r; });
@@ -2876,9 +2920,10 @@ struct TableRun {
 				expectUse(true, "rowBounds.GetBegin() += -1", "iterator moved out of its range", [&] { auto it = m2.GetBegin(); it += -1; });
 				expectUse(false, "rowBounds.GetEnd() - rowBounds.GetBegin()", "", [&] { if (m2.GetEnd() - m2.GetBegin() != k || !(m2.GetBegin() < m2.GetEnd())) throw std::logic_error("wrong distance"); auto it = m2.GetBegin(); it += k - 1; if ((int)(*it)[CL::B()] != multi) throw std::logic_error("wrong row"); });
 				expectUse(true, "rowBounds.GetBegin() - emptyBounds.GetBegin()", "iterators of different ranges", [&] { (void)(m2.GetBegin() - e.GetBegin()); });
-				// not reported by the implementation (the iterator does not know the length of the value array): defect candidate
-				candidate("multihash-iterator-unbounded", fmt("FindByMultiHash bounds of %td rows: GetBegin() += %td (one past the end)", k, k + 1), inChild([&] { auto it = m2.GetBegin(); it += k + 1; }));
-				candidate("multihash-iterator-unbounded", fmt("FindByMultiHash bounds of %td rows: *GetEnd() (reads one past the value array)", k), inChild([&] { auto it = m2.GetEnd(); Ref r = *it; (void)r; }));
+				// DataIndexes.h:197 / 213 (repair F31): above the end, and the end position where a row is required
+				expectRejectProtected(fmt("rowBounds(%td rows).GetBegin() += %td", k, k + 1), "iterator moved out of its range", [&] { auto it = m2.GetBegin(); it += k + 1; });
+				expectRejectProtected(fmt("*rowBounds(%td rows).GetEnd()", k), "end / empty iterator where an element is required", [&] { auto it = m2.GetEnd(); Ref r = *it; (void)r; });
+				expectUse(false, "rowBounds.GetBegin() += count", "", [&] { auto it = m2.GetBegin(); it += k; if (!(it == m2.GetEnd())) throw std::logic_error("not the end"); });
 			}
 		}
 		// ---- DataSelection.h:60-94, 163-188: iterators of selections and of the table; 332-355, 422: column item bounds; 650, 673: range Add / Insert
@@ -2919,16 +2964,15 @@ struct TableRun {
 			}
 			expectUse(false, "selection.Add(begin, end) of the same table", "", [&] { Sel w = all; w.Add(all2.GetBegin(), all2.GetEnd()); if (w.GetCount() != (size_t)(2 * k)) throw std::logic_error("wrong count"); }, same);
 		}
-		// ---- TryUpdate / Update(row number, row of the other table): not checked by the implementation (defect candidate); run in a child
-		if (n) {
-			candidate("update-foreign-row", "A.TryUpdate(0, row of B)", inChild([&] { TryResult r = O(0).TryUpdate(0, makeRow(1, 600, 5, 999)); (void)r; }));
-			candidate("update-foreign-row", "A.Update(0, row of B)", inChild([&] { (void)O(0).Update(0, makeRow(1, 601, 5, 999)); }));
-		}
+		// ---- DataTable.h:642 (repair F32): TryUpdate / Update(row number, row of the other table), valid and invalid row numbers
+		expectRejectProtected("A.TryUpdate(0, row of B)", "row of another table", [&] { TryResult r = O(0).TryUpdate(0, makeRow(1, 600, 5, 999)); (void)r; });
+		expectRejectProtected("A.Update(0, row of B)", "row of another table", [&] { (void)O(0).Update(0, makeRow(1, 601, 5, 999)); });
+		expectRejectProtected("A.TryUpdate(count, row of B)", "row of another table", [&] { TryResult r = O(0).TryUpdate(O(0).GetCount(), makeRow(1, 602, 5, 999)); (void)r; });
 		c.stats.count("directed misuse blocks");
 	}
 
 	// ------------------------------------------------------------------------------------------------ enumeration
-	static const int NSTATE = 3, NHANDLE = 11, NOP = 24;
+	static const int NSTATE = 3, NHANDLE = 11, NOP = 25;
 	void build(int st) {
 		newScenario();
 		if (st == 1) { mAdd(0, 10, 5, 30); mAdd(1, 10, 5, 30); }
@@ -2977,6 +3021,7 @@ struct TableRun {
 		case 20: if (O(1).GetCount() < 1) return false; mRmNum(1, 0); return true;
 		case 21: hSelect(0, 1, 0, 22); hFindM(0, 5, 22); hFindU(0, 10, 23); if (n) hAt(0, 0, 24); (void)O(0).SelectCount(); return true;   // const entry points only
 		case 22: quietReserve(0); return true;
+		case 24: mUpdRowOf(0, 1, n ? n - 1 : 0, 53, 6, 31); return true;                  // refused (row of the other table): nothing happens
 		default: mAdd(0, 70, 5, 31); mRmNum(0, O(0).GetCount() - 1); return true;         // a row comes and goes: every older reference is invalid
 		}
 	}
@@ -3033,6 +3078,10 @@ struct TableRun {
 			case 0: uMbAt(0, 0, 40); if (hasRef(40)) uGet(40); break;
 			case 1: uMbAt(0, k, 40); break;
 			case 2: if (k) { uMbAt(0, k - 1, 40); if (hasRef(40)) uRmRef(40, 0); } break;
+			case 3: uMbIt(0, 0, 40); if (hasRef(40)) uGet(40); break;
+			case 4: uMbIt(0, k, 40); break;                                               // the end position
+			case 5: uMbAdv(0, k); uMbAdv(0, 0); break;
+			case 6: uMbAdv(0, k + 1); if (k) { uMbIt(0, k - 1, 40); if (hasRef(40)) uGet(40); } break;
 			default: break;
 			}
 		}
@@ -3041,7 +3090,7 @@ struct TableRun {
 		for (int st = 0; st < NSTATE; ++st)
 			for (int op = 0; op < NOP; ++op)
 				for (int hk = 0; hk < NHANDLE; ++hk) {
-					int nuse = (hk == 6) ? 3 : (hk == 7) ? 3 : (hk == 4 || hk == 5) ? 12 : 17;
+					int nuse = (hk == 6) ? 3 : (hk == 7) ? 7 : (hk == 4 || hk == 5) ? 12 : 17;
 					for (int u = 0; u < nuse; ++u) {
 						build(st);
 						char kind = makeHandle(hk, st);
@@ -3061,7 +3110,10 @@ struct TableRun {
 			size_t n = O(o).GetCount();
 			int a = (int)rng.below(12), b = (int)rng.below(4);
 			size_t any = rng.below(6) == 0 ? (rng.below(2) ? SMAX - rng.below(3) : n + 1 + rng.below(3)) : rng.below(n + 1);
-			switch (rng.below(30)) {
+			switch (rng.below(33)) {
+			case 28: mUpdRowOf(o, (int)rng.below(2), any, a, b, d); break;
+			case 29: if (hasB(h)) uMbAdv(h, rng.below(bs[h].ids.size() + 3)); break;
+			case 30: if (hasB(h)) uMbIt(h, rng.below(bs[h].ids.size() + 2), d); break;
 			case 0: case 1: case 2: case 3: mAdd(o, a, b, d); break;
 			case 4: mInsert(o, any, a, b, d); break;
 			case 5: mUpdRow(o, any, a, b, d); break;
